@@ -309,7 +309,10 @@ def run(ctx):
     runlevel.with_extra(ctx, "c19seed", lambda: edge_seed_specs(ctx))
     stats, samples = runlevel.noisy_replay(ctx, rep, ctx.pid)
     fstats = runlevel.full_replay(ctx, rep)
+    # ONE WHOLE CALL of optimize() (Opt.init + Full.step + Opt.finish, the model of Props/C19Opt.lean): every pool run through the whole-call model
+    wstats = runlevel.whole_replay(ctx, rep)
     rep.coverage = {
+        "whole_run_model": wstats,
         "composed_model": fstats,
         "evaluations": stats["iterations"] + stats["final_selects"] + cstats["ops"] + cstats["result_ops"],
         "distinct_nontrivial": stats["moves"] + stats["reevals"] + stats["final_selects"] + cstats["overwrites"] + cstats["errors"],
